@@ -1,6 +1,7 @@
 package main
 
 import (
+	"go/types"
 	"sort"
 	"strings"
 
@@ -98,6 +99,21 @@ func locksIn(fn *ssa.Function, entry lockset) map[ssa.Instruction]lockset {
 						cur[m] = 'R'
 					case "Unlock", "RUnlock":
 						delete(cur, m)
+					}
+				} else if m, op := boundLockEvent(call); m != "" {
+					// release() where release is the method value c.m.RUnlock handed back by an acquiring helper
+					switch op {
+					case "Lock":
+						cur[m] = 'W'
+					case "RLock":
+						cur[m] = 'R'
+					case "Unlock", "RUnlock":
+						delete(cur, m)
+					}
+				} else {
+					// a helper that returns with a lock held on every path (ch, release := c.acquireCurrent())
+					for m, mode := range acquiredByCallee(call) {
+						cur[m] = mode
 					}
 				}
 			}
@@ -445,4 +461,111 @@ func wrapperLocks(c *Ctx, fn *ssa.Function, depth int) lockset {
 		return lockset{}
 	}
 	return res
+}
+
+var acquiredMemo = map[*ssa.Function]lockset{}
+var acquiredBusy = map[*ssa.Function]bool{}
+
+// acquiredByCallee: the locks an in-package helper holds at EVERY return although it did not hold them on entry, renamed from
+// the helper's parameters to the call's arguments.
+func acquiredByCallee(call *ssa.Call) lockset {
+	cal := staticCallee(&call.Call)
+	if cal == nil || cal.Blocks == nil || call.Parent() == nil || rootFn(origin(cal)).Pkg != rootFn(call.Parent()).Pkg || cal.Parent() != nil {
+		return nil
+	}
+	o := origin(cal)
+	sum, ok := acquiredMemo[o]
+	if !ok {
+		if acquiredBusy[o] {
+			return nil
+		}
+		acquiredBusy[o] = true
+		held := locksIn(o, lockset{})
+		var at lockset
+		n := 0
+		for _, b := range o.Blocks {
+			if ret, ok := b.Instrs[len(b.Instrs)-1].(*ssa.Return); ok {
+				n++
+				if at == nil {
+					at = held[ret].clone()
+				} else {
+					at = meetLocks(at, held[ret])
+				}
+			}
+		}
+		// deferred unlocks run at the return: a helper that defers its Unlock holds nothing afterwards
+		hasDeferredUnlock := false
+		instrs(o, func(_ *ssa.BasicBlock, _ int, in ssa.Instruction) {
+			if d, ok := in.(*ssa.Defer); ok {
+				if _, op := lockEvent(&d.Call); op == "Unlock" || op == "RUnlock" {
+					hasDeferredUnlock = true
+				}
+			}
+		})
+		if n == 0 || hasDeferredUnlock {
+			at = lockset{}
+		}
+		delete(acquiredBusy, o)
+		acquiredMemo[o] = at
+		sum = at
+	}
+	if len(sum) == 0 {
+		return nil
+	}
+	out := lockset{}
+	for lk, mode := range sum {
+		for i, a := range call.Call.Args {
+			if i < len(o.Params) {
+				pn := pname(o.Params[i])
+				if strings.HasPrefix(lk, pn+".") {
+					out[path(a)+lk[len(pn):]] = mode
+				}
+			}
+		}
+	}
+	return out
+}
+
+// boundLockEvent: call invokes a function VALUE that is a bound method of a sync mutex (release := c.m.RUnlock; release()),
+// possibly handed back as a result of an in-package helper; returns the mutex path in the caller's terms and the operation.
+func boundLockEvent(call *ssa.Call) (string, string) {
+	if call.Call.IsInvoke() {
+		return "", ""
+	}
+	switch call.Call.Value.(type) {
+	case *ssa.Function, *ssa.Builtin:
+		return "", ""
+	}
+	if _, isSig := call.Call.Value.Type().Underlying().(*types.Signature); !isSig {
+		return "", ""
+	}
+	ls := valueLeaves(call.Call.Value, nil, 0)
+	if len(ls) != 1 {
+		return "", ""
+	}
+	mc, ok := ls[0].v.(*ssa.MakeClosure)
+	if !ok || len(mc.Bindings) != 1 {
+		return "", ""
+	}
+	bf, ok := mc.Fn.(*ssa.Function)
+	if !ok || !strings.HasSuffix(bf.Name(), "$bound") {
+		return "", ""
+	}
+	name := strings.TrimSuffix(bf.Name(), "$bound")
+	switch name {
+	case "Lock", "Unlock", "RLock", "RUnlock":
+	default:
+		return "", ""
+	}
+	bt := mc.Bindings[0].Type()
+	if !(isNamedType(bt, "sync", "Mutex") || isNamedType(bt, "sync", "RWMutex")) {
+		if pt, ok := bt.Underlying().(*types.Pointer); !ok || !(isNamedType(pt.Elem(), "sync", "Mutex") || isNamedType(pt.Elem(), "sync", "RWMutex")) {
+			return "", ""
+		}
+	}
+	// the receiver, in the caller's terms (the closure may have been made inside the helper)
+	pv := addrProv(mc.Bindings[0], provEnv{chain: ls[0].chain})
+	m := pv.String()
+	m = strings.TrimPrefix(m, "param:")
+	return m, name
 }
